@@ -132,7 +132,7 @@ def generate(seed: int, tier: str, phase: str) -> Dict[str, Any]:
     # swarm: each run enables a random subset of op kinds
     alphabet = [
         "deepcopy", "deepcopy", "pickle", "tsave", "to", "lsd", "lsd_into", "reqgrad",
-        "transform", "create", "drop",
+        "transform", "create", "drop", "churn",
     ]
     faulty = ["save_enospc", "load_torn", "restart"]
     enabled = [a for a in dict.fromkeys(alphabet) if r.random() < 0.75] or ["deepcopy"]
@@ -147,6 +147,12 @@ def generate(seed: int, tier: str, phase: str) -> Dict[str, Any]:
         op: Dict[str, Any] = {"op": k, "h": r.randrange(64)}
         if k == "create":
             op = _gen_create(r)
+        elif k == "churn":
+            # short-lived parameters of one shape but different tags, created and freed in turn
+            # (object addresses get re-used: anything keyed by id() becomes history-dependent)
+            op["shape"] = [r.choice([2, 3, 5]), r.choice([2, 4])]
+            op["tags"] = [[r.choice(TAGS), r.choice(DEPTHS)] for _ in range(r.choice([3, 4, 6]))]
+            op["tseed"] = r.randrange(1 << 30)
         elif k == "pickle":
             op["proto"] = r.choice([2, 3, 4, 5])
         elif k == "tsave":
@@ -497,6 +503,36 @@ def execute(plan: Dict[str, Any]) -> Dict[str, Any]:
             if k == "create":
                 add(make_handle(op))
                 res["opseq"].append("create:" + op["kind"])
+                check_all(where)
+                record(op)
+                continue
+            if k == "churn":
+                import gc
+
+                import unit_scaling as uu
+                import unit_scaling.optim as uo
+
+                g_ = torch.Generator().manual_seed(op["tseed"])
+                for j, (tag_, depth_) in enumerate(op["tags"]):
+                    # a burst of short-lived parameters of one shape: enough of them that some
+                    # land on addresses freed by the previous burst whatever the heap looks like
+                    burst = [uu.Parameter(torch.randn(*op["shape"], generator=g_), tag_, depth_) for _ in range(12)]
+                    for p_ in burst:
+                        lr_p = float(uo.scaled_parameters([p_], uo.lr_scale_func_adam, lr=1.0)[0]["lr"])
+                        c_ = copy.deepcopy(p_)
+                        lr_c = float(uo.scaled_parameters([c_], uo.lr_scale_func_adam, lr=1.0)[0]["lr"])
+                        if lr_p != lr_c:
+                            raise Violation("optimizer_accepts", "lr_scale_differs",
+                                            f"short-lived {tag_}/{depth_} parameter of shape {op['shape']}: lr scale {lr_p} but "
+                                            f"its deep copy gets {lr_c} {where}")
+                        del c_
+                    tmp = Handle("param", burst[0], {"kind": "param"},
+                                 [PModel("", tag_, depth_, True, burst[0].detach().clone(), _lr_refs(burst[0]))], "create")
+                    check_handle(tmp, where + f" (short-lived parameter {tag_}/{depth_})")
+                    del tmp, burst, p_
+                    gc.collect(0)
+                probe("churn_ops")
+                res["opseq"].append("churn")
                 check_all(where)
                 record(op)
                 continue
